@@ -222,7 +222,21 @@ func registerIntrinsics(e *Engine) {
 		x := bigArg(p, fr, args[0], pos)
 		tb := p.tb
 		lo := tb.Int2BV(tb.IAbs(x), 64)
-		return tb.Ite(tb.ILt(x, IntConst64(0)), tb.BVNeg(lo), lo)
+		r := tb.Ite(tb.ILt(x, IntConst64(0)), tb.BVNeg(lo), lo)
+		if !r.c {
+			// when the value fits into int64 (decided by a fork) the result keeps x as its integer shadow,
+			// so that later comparisons and big.NewInt(...) stay in integer arithmetic
+			fits := tb.And(tb.ILe(IntConst64(math.MinInt64), x), tb.ILe(x, IntConst64(math.MaxInt64)))
+			if p.forkBool(fits, fr, pos) {
+				c := *r
+				c.ivS = x
+				if p.isKnown(tb.ILe(IntConst64(0), x).s) || p.forkBoolQuiet(tb.ILe(IntConst64(0), x)) {
+					c.ivSMin = true
+				}
+				return &c
+			}
+		}
+		return r
 	}
 	I["(*math/big.Int).Uint64"] = func(p *Path, fr *frame, fn *ssa.Function, args []Value, pos token.Pos) Value {
 		x := bigArg(p, fr, args[0], pos)
